@@ -95,11 +95,15 @@ def step(st, ev):
         # `env [-of ..] Y = -stdout-from % valprobe`: the program runs in the environment of each set that is changed
         spec = SPECS[ev[1]]
         sets = {'': ('act', 'nonact'), '-of act ': ('act',), '-of !act ': ('nonact',)}[spec]
-        if st['phase'] > 0:
-            # after [setup] the action to check has been configured: a change of its set has nothing left to affect (probed: the value is not computed)
-            sets = tuple(x for x in sets if x != 'act')
         st.setdefault('valprobes', [])
-        st['valprobes'] = list(st['valprobes']) + [(tuple(sorted((k_, v_) for k_, v_ in st[s_].items() if k_ in ('X', 'Y'))), st['timeout'], st['cwd']) for s_ in sets]
+        st.setdefault('valprobes_optional', [])
+        for s_ in sets:
+            rec = (tuple(sorted((k_, v_) for k_, v_ in st[s_].items() if k_ in ('X', 'Y'))), st['timeout'], st['cwd'])
+            if s_ == 'act' and st['phase'] > 0:
+                # after [setup] a change of the act set has nothing left to affect: computing the value is optional (today it is not computed)
+                st['valprobes_optional'] = list(st['valprobes_optional']) + [rec]
+            else:
+                st['valprobes'] = list(st['valprobes']) + [rec]
         for s_ in sets:
             st[s_]['Y'] = 'val'
         return st, ['env %sY = -stdout-from %% valprobe' % spec]
@@ -275,7 +279,11 @@ def run(case) -> Result:
     want_val = sorted(final.get('valprobes', []))
     got_val = sorted((tuple(sorted((c['env'] if c['env'] is not None else BASE_ENV).items())), c['timeout'],
                       tuple(os.path.relpath(c['cwd'], os.path.dirname(calls[0]['cwd'])).split('/')) if calls else ()) for c in valcalls)
-    if got_val != want_val:
+    import collections as _c
+    need = _c.Counter(want_val)
+    have = _c.Counter(got_val)
+    may = _c.Counter(final.get('valprobes_optional', []))
+    if (need - have) or ((have - need) - may):
         errs.append('programs giving the value of `env` ran with (environment, timeout, cwd) %s, expected one per changed set: %s' % (got_val, want_val))
     if len(calls) != len(exp):
         errs.append('%d processes started, expected %d' % (len(calls), len(exp)))
